@@ -295,7 +295,11 @@ pub fn check_c20(sc: &Scenario, seed: u64, st: Option<&mut Stats>) -> Vec<Violat
             }
         }
     }
-    for (which, txt) in [("{:?}", &b.debug_text), ("{:#?}", &b.debug_text_pretty)] {
+    let mut texts: Vec<(&str, Option<Result<String, String>>)> = vec![("{:?}", b.debug_text.clone()), ("{:#?}", b.debug_text_pretty.clone())];
+    for (spec, r) in &b.debug_text_specs {
+        texts.push((spec, Some(r.clone())));
+    }
+    for (which, txt) in texts.iter().map(|(w, t)| (*w, t)) {
         match txt {
             Some(Err(p)) => out.push(vio(
                 "C20",
